@@ -769,6 +769,15 @@ def weave_fn(src, container, name, nth, opts, subs, mode, sig_only=False):
         r22 = not r23
     raw = src.text[s:c + 1]
     line0 = src.line_of(s)
+    if opts.get('status') == 'A' and not sig_only and not (r22 or r23) and not opts.get('proved_as'):
+        # a function whose contract is ASSUMED (its body is never verified): the assumption was reviewed against one particular text.  The hash
+        # of that text (comments and layout aside) is locked; a different body makes the unit undecided - nothing is known about the new text
+        sha_ = hashlib.sha256(' '.join(str(t_) for t_ in norm_tokens(raw)).encode()).hexdigest()[:16]
+        key_ = '%s:%s::%s|assumed-sha' % (os.path.relpath(src.path, getattr(src, 'root', os.path.dirname(src.path))), container, name)
+        ANCHOR_SEEN[key_] = sha_
+        want_ = anchor_lock().get(key_)
+        if want_ is not None and want_ != sha_:
+            raise Undecided('the body of %s::%s changed and its contract is assumed, not verified (the assumption was reviewed against another text)' % (container, name))
     # anchor-lock keys carry the source file: the same `impl .. for Iter<'a>::next` exists in several files
     akey = '%s:%s::%s' % (os.path.relpath(src.path, getattr(src, 'root', os.path.dirname(src.path))), container, name)
     rewrites = {}
